@@ -571,5 +571,15 @@ PROPS["C13"]["rule"] += (" Two more kinds: a few confirms / returns that the ser
     "scenarios are fixed points of the space: every kind, the backlogs of 4300 / 4097 / 1500 included.")
 PROPS["C03"]["rule"] += " Returned messages through listen_for_returns: the c13l2 scenarios (see C13)."
 
+PROPS["C15"]["check_mods"].append("C15l2")
+PROPS["C15"]["drivers"].append({"name": "c15l2", "n_quick": 49, "n_thorough": 600, "timeout": 3000})
+PROPS["C15"]["rule"] += (" 'Then obeyed', end to end (c15l2): real connections with client channel_max and server "
+    "Tune channel_max from {0, 1, 2, 3, 7, 2047, 65535} (all 49 pairs, then random ones below 13): open_channel(None) "
+    "until refused (10-14 tries), then on a fresh connection open_channel(Some(max)) and open_channel(Some(max + 1)).")
+PROPS["C15"]["explanation"] += (" c15l2: exactly min(tries, negotiated channel_max) channels open, the next is "
+    "refused with ExhaustedChannelIds, id max is available and id max + 1 is refused with UnavailableChannelId - "
+    "against make_tune_ok of the model and, independently, against the documented rule (0 = no limit, else the smaller).")
+PROPS["C15"]["trusted_base"] = PROPS["C15"]["trusted_base"] + L2_TRUSTED
+
 # properties not claimed, with the reason (kept current)
 NOT_APPLICABLE = {}
